@@ -5044,14 +5044,20 @@ impl<'a> Parser<'a> {
             ObjectType::Stage
         } else if self.parse_keyword(Keyword::TYPE) {
             ObjectType::Type
+        } else if self.parse_keyword(Keyword::SECRET) {
+            return self.parse_drop_secret(temporary, persistent);
+        } else if temporary || persistent {
+            // the statements below have no place for TEMPORARY / PERSISTENT
+            return self.expected(
+                "TABLE, VIEW, INDEX, ROLE, SCHEMA, DATABASE, STAGE, SEQUENCE, TYPE or SECRET",
+                self.peek_token(),
+            );
         } else if self.parse_keyword(Keyword::FUNCTION) {
             return self.parse_drop_function();
         } else if self.parse_keyword(Keyword::POLICY) {
             return self.parse_drop_policy();
         } else if self.parse_keyword(Keyword::PROCEDURE) {
             return self.parse_drop_procedure();
-        } else if self.parse_keyword(Keyword::SECRET) {
-            return self.parse_drop_secret(temporary, persistent);
         } else if self.parse_keyword(Keyword::TRIGGER) {
             return self.parse_drop_trigger();
         } else {
@@ -5060,6 +5066,13 @@ impl<'a> Parser<'a> {
                 self.peek_token(),
             );
         };
+        if persistent {
+            // Statement::Drop stores TEMPORARY only
+            return parser_err!(
+                "PERSISTENT is only supported in DROP SECRET",
+                self.peek_token().location
+            );
+        }
         // Many dialects support the non-standard `IF EXISTS` clause and allow
         // specifying multiple objects to delete in a single statement
         let if_exists = self.parse_keywords(&[Keyword::IF, Keyword::EXISTS]);
